@@ -261,3 +261,70 @@ mutant("c11-nets-conflict-check-dropped", "C11", CMD,
 mutant("c11-empty-vm-restriction-gets-default", "C11", CMD,
        '''                        use_vms_default[vm_name] = False''',
        '''                        use_vms_default[vm_name] = not value''')
+
+# ---- C14 -------------------------------------------------------------------------------------------
+mutant("c14-locks-skipped", "C14", POOL, '''SKIP_LOCKS = False''', '''SKIP_LOCKS = True''')
+mutant("c14-unlock-before-critical-section", "C14", POOL,
+       '''        try:
+            yield fd
+        finally:
+            fcntl.lockf(fd, fcntl.LOCK_UN)''',
+       '''        fcntl.lockf(fd, fcntl.LOCK_UN)
+        yield fd''')
+mutant("c14-timeout-proceeds-unlocked", "C14", POOL,
+       '''        else:
+            raise RuntimeError(
+                f"Waiting to acquire {lockfile} took more than "
+                f"the allowed {timeout} seconds"
+            )''',
+       '''        else:
+            logging.warning(
+                f"Waiting to acquire {lockfile} took more than "
+                f"the allowed {timeout} seconds"
+            )''')
+mutant("c14-download-compare-skipped", "C14", POOL,
+       '''            if TransferOps.compare_local(cache_path, pool_path, params):
+                logging.info(f"Skip download of an already available {cache_path}")
+                return''',
+       '''            if False:
+                logging.info(f"Skip download of an already available {cache_path}")
+                return''')
+mutant("c14-link-replaces-data", "C14", POOL,
+       '''            if not os.path.islink(cache_path) and os.path.exists(cache_path):
+                raise RuntimeError(
+                    f"Cannot link to {pool_path}, {cache_path} data exists"
+                )''',
+       '''            if not os.path.islink(cache_path) and os.path.exists(cache_path):
+                os.unlink(cache_path)''')
+mutant("c14-link-uploaded", "C14", POOL,
+       '''        if os.path.islink(cache_path):
+            raise ValueError("Cannot upload a symlink to its destination")
+        else:''',
+       '''        if False:
+            raise ValueError("Cannot upload a symlink to its destination")
+        else:''')
+mutant("c14-per-process-lockfile", "C14", POOL,
+       '''    lockfile = resource_path + ".lock"''',
+       '''    lockfile = resource_path + f".{os.getpid()}.lock"''')
+mutant("c14-delete-outside-lock", "C14", POOL,
+       '''        with image_lock(pool_path, update_timeout) as lock:
+            os.unlink(pool_path)''',
+       '''        with image_lock(pool_path, update_timeout) as lock:
+            pass
+        os.unlink(pool_path)''')
+mutant("c14-upload-compare-before-lock", "C14", POOL,
+       '''        with image_lock(pool_path, update_timeout) as lock:
+            if TransferOps.compare_local(cache_path, pool_path, params):
+                logging.info(f"Skip upload of an already available {cache_path}")
+                return
+            os.makedirs''',
+       '''        if TransferOps.compare_local(cache_path, pool_path, params):
+            logging.info(f"Skip upload of an already available {cache_path}")
+            return
+        with image_lock(pool_path, update_timeout) as lock:
+            os.makedirs''',
+       note="check-then-act race: compare outside the critical section")
+mutant("c14-blocking-lock-ignores-timeout", "C14", POOL,
+       '''                fcntl.lockf(fd, fcntl.LOCK_EX | fcntl.LOCK_NB)''',
+       '''                fcntl.lockf(fd, fcntl.LOCK_EX)''',
+       note="waits forever instead of raising after the timeout")
